@@ -118,7 +118,7 @@ pub fn run(ctx: &mut Ctx) {
         ctx.check("*:decimal-string:prefix", &json!({"*": [format!(" {} ", xs), 1]}), &null);
     }
     // radix literal families around the accumulator widths (all-zero, all-max, top bit, bottom bit, alternating)
-    for x in al::radix_families().into_iter().chain(al::integer_digit_strings()) {
+    for x in al::radix_families().into_iter().chain(al::radix_tails()).chain(al::integer_digit_strings()) {
         if !ctx.mine() {
             continue;
         }
@@ -210,7 +210,7 @@ pub fn run(ctx: &mut Ctx) {
     // an inner overflow is an error even when the outer operands would cancel it, an inner call has its own
     // operand-count rules
     {
-        let g: Vec<Value> = ["0.1", "0.2", "0.3", "1e308", "-1e308", "1e-200", "1e200", "9007199254740992", "1", "-1", "3", "\"x\"", "\"-Infinity\"", "\"1e309\"", "5e-324", "0.5", "0", "-0.0", "\"0\""].iter().map(|t| al::parse(t)).collect();
+        let g: Vec<Value> = ["0.1", "0.2", "0.3", "1e308", "-1e308", "1e-200", "1e200", "9007199254740992", "1", "-1", "3", "\"x\"", "\"-Infinity\"", "\"1e309\"", "5e-324", "0.5", "0", "-0.0", "\"0\"", "\"0.1\"", "\"1e308\"", "\"1e200\"", "[0.2]"].iter().map(|t| al::parse(t)).collect();
         for x in &g {
             for y in &g {
                 if !ctx.mine() {
